@@ -188,7 +188,7 @@ m("c18_pool_put_live_solver", "C18", "algz/dp.go",
 # ---------------------------------------------------------------- C19 goz/goz.go
 m("c19_add_in_goroutine", "C19", "goz/goz.go",
   "\tl.add()\n\n\tgo Recover(fn, l.panicHandler, l.done)\n",
-  "\tl.c <- struct{}{}\n\n\tgo func() {\n\t\tl.w.Add(1)\n\t\tRecover(fn, l.panicHandler, l.done)\n\t}()\n")
+  "\tl.c <- struct{}{}\n\n\tgo func() {\n\t\tl.mu.Lock()\n\t\tif l.running == 0 {\n\t\t\tl.idle = make(chan struct{})\n\t\t}\n\t\tl.running++\n\t\tl.mu.Unlock()\n\t\tRecover(fn, l.panicHandler, l.done)\n\t}()\n")
 m("c19_cleanup_skipped_on_panic", "C19", "goz/goz.go",
   "\t\t\t\tfmt.Println(buf.String())\n\t\t\t}\n\t\t}\n",
   "\t\t\t\tfmt.Println(buf.String())\n\t\t\t}\n\t\t\tif _, isErr := p.(error); isErr {\n\t\t\t\treturn\n\t\t\t}\n\t\t}\n")
@@ -197,7 +197,7 @@ m("c19_no_recover_for_struct_panics", "C19", "goz/goz.go",
   "\t\tif p := recover(); p != nil {\n\t\t\tif _, isStr := p.(string); !isStr {\n\t\t\t\tif _, isErr := p.(error); !isErr {\n\t\t\t\t\tpanic(p)\n\t\t\t\t}\n\t\t\t}\n\t\t\tif panicFn != nil {\n\t\t\t\tpanicFn(p)")
 m("c19_token_released_before_fn", "C19", "goz/goz.go",
   "\tgo Recover(fn, l.panicHandler, l.done)\n",
-  "\tgo func() {\n\t\t<-l.c\n\t\tRecover(fn, l.panicHandler, l.w.Done)\n\t}()\n")
+  "\tgo func() {\n\t\t<-l.c\n\t\tRecover(fn, l.panicHandler, func() {\n\t\t\tl.mu.Lock()\n\t\t\tl.running--\n\t\t\tif l.running == 0 {\n\t\t\t\tclose(l.idle)\n\t\t\t\tl.idle = nil\n\t\t\t}\n\t\t\tl.mu.Unlock()\n\t\t})\n\t}()\n")
 m("c19_default_limit_1", "C19", "goz/goz.go",
   "\tif limit < 1 {\n\t\tlimit = 3\n\t}", "\tif limit < 1 {\n\t\tlimit = 1\n\t}")
 m("c19_done_releases_two_tokens", "C19", "goz/goz.go",
